@@ -490,6 +490,8 @@ func init() {
 		Assumptions: []string{"go/types of the installed toolchain: set of implementers of types.Type and types.Object", "table of defining components per kind of type (in the checker source)"},
 		Rules: []func(*Ctx){func(c *Ctx) {
 			ruleConverterCoverage(c, "V1-converter-coverage")
+			ruleEnumKeyedMapsTotal(c, "E4m-enum-keyed-maps-total", "go/types", "xreflect")
+			rulePackageCacheKey(c, "V4k-package-cache-key")
 			ruleConverterOrder(c, "V2-converter-order")
 			ruleConverterIndexAlignment(c, "V3-index-alignment")
 			c.Floor("V1-converter-coverage", 25)
